@@ -65,7 +65,11 @@ def eval_seed(sid, base, props_mode, tier):
         # the COMMITTED state of /verif (edits in progress in the live tree must not leak into the measurement), plus the
         # build outputs of the live tree to save time (lake / go rebuild whatever differs)
         os.makedirs(v)
-        sh("git -C %s archive HEAD | tar -x -C %s" % (ROOT, v))
+        for _ in range(5):
+            sh("git -C %s archive HEAD | tar -x -C %s" % (ROOT, v))
+            if os.path.exists(os.path.join(v, "check")):
+                break
+            time.sleep(2)   # a commit in progress in /verif: try again
         shutil.rmtree(os.path.join(v, "seeded"), ignore_errors=True)
         sh(["rsync", "-a", os.path.join(ROOT, "lean", ".lake"), os.path.join(v, "lean") + "/"])
         os.makedirs(os.path.join(v, ".work"), exist_ok=True)
